@@ -31,7 +31,7 @@ let rnd_runid st =
 
 let rnd_offset st =
   match rnd_int st 5 with
-  | 0 -> rnd_int st 10 | 1 -> rnd_int st 100000 | 2 -> (1 lsl 31) - rnd_int st 3 + rnd_int st 3
+  | 0 -> rnd_pick st [ 0; 0; 1; rnd_int st 10 ] | 1 -> rnd_int st 100000 | 2 -> (1 lsl 31) - rnd_int st 3 + rnd_int st 3
   | 3 -> (1 lsl 40) + rnd_int st 1000000 | _ -> (1 lsl 61) + rnd_int st 1000
 
 (* "+FULLRESYNC <runid> <offset>\r\n" preceded / followed by keep-alive newlines, then "$n\r\n" *)
@@ -82,6 +82,7 @@ let gen_history st ~quiet =
   let hdr0 = full_header st runid start nrdb in
   let nphase = rnd_pick st [ 1; 1; 2; 2; 3 ] in
   let full_phase = if rnd_int st 8 = 0 then -1 else if rnd_int st 4 = 0 then min 1 (nphase - 1) else 0 in
+  let silent0 = nphase > 1 && rnd_int st 5 = 0 in   (* the first connection is dropped before a single command byte was sent *)
   let ncmd = ref 0 in
   let conns = List.init nphase (fun ph ->
     let nwin = if nphase = 1 then 2 + rnd_int st 3 else 1 + rnd_int st 2 in
@@ -97,7 +98,7 @@ let gen_history st ~quiet =
     else if ph > 0 then add "S11";
     for w = 0 to nwin - 1 do
       if w = full_win then begin add (Printf.sprintf "W%d" (w * 1000 + 60)); add "F" end;
-      let nb = rnd_pick st [ 0; 1; 1; 2; 3 ] in
+      let nb = if silent0 && ph = 0 then 0 else rnd_pick st [ 0; 1; 1; 2; 3 ] in
       let times = List.sort compare (List.init nb (fun _ -> if quiet then 150 + rnd_int st 350 else rnd_int st 1000)) in
       List.iter (fun t ->
         add (Printf.sprintf "W%d" (w * 1000 + t));
